@@ -76,6 +76,8 @@ def run_sizes(cfg, out, props=None, tag="C05"):
             frags = size // run.C.Packet.MAX_FRAGMENT_SIZE + 2
             w.step(6 + frags * 2)
         healed = run.settle([c], min_ticks=20, horizon=20.0)
+        if healed is not None and change_mtu(run, c, r):
+            healed = run.settle([c], min_ticks=20, horizon=20.0)
         if healed is not None and age_session(run, c, r):
             healed = run.settle([c], min_ticks=20, horizon=20.0)
         T.final_checks(run, [c], healed)
@@ -115,6 +117,40 @@ class KthLoss(object):
             self.run.c.inc("targeted_ack_drops")
             return "drop"
         return None
+
+
+def change_mtu(run, c, r):
+    """the documented runtime use of Packet.setMTU(): the MTU is changed (lowered because the network drops packets, or
+    raised again) while connections are open.  Done at quiescence; afterwards both sides send sizes around the old and the
+    new limits.  Every monitor reads the limits live, so datagram bound, shape, delivery and callbacks are judged against
+    the MTU in force when a datagram is built."""
+    w = run.world
+    P = run.C.Packet
+    ends = [c.udp.conn, run.sconn(c)]
+    if not run.open(c) or any(e is None or e.outgoing_messages or e.pending_retry or e.received_fragments for e in ends):
+        return False
+    old_mtu, old_maxp, old_frag = P.MTU, P.MAX_PAYLOAD_SIZE, P.MAX_FRAGMENT_SIZE
+    new_mtu = r.choice([m for m in (512, 576, 800, 1000, 1095, 1096, 1200, 1400, 1500) if m != old_mtu])
+    P.setMTU(new_mtu)
+    run.mtu = new_mtu
+    run.c.inc("mtu_changes_on_open_connections")
+    run.c.inc("mtu_raised" if new_mtu > old_mtu else "mtu_lowered")
+    maxp, frag = P.MAX_PAYLOAD_SIZE, P.MAX_FRAGMENT_SIZE
+    lo, hi = sorted((old_maxp, maxp))
+    sizes = [maxp, maxp - 1, maxp + 1, min(old_maxp, P.MAX_FRAGMENT_SIZE * P.MAX_FRAGMENTS), (lo + hi) // 2, lo + 1, hi - 1, 2 * frag, 2 * frag + maxp - 7, 3 * old_frag + 5, 5000, 0, 1]
+    r.shuffle(sizes)
+    for size in sizes[:r.randint(5, 9)]:
+        for side in ("client", "server"):
+            ep = c if side == "client" else run.sconn(c)
+            if ep is not None:
+                run.app.send(ep, side, max(0, size), -1, api=r.choice(["send", "send_guaranteed"]), with_cb=True)
+        w.step(r.randint(1, 5))
+    for side in ("client", "server"):
+        ep = c if side == "client" else run.sconn(c)
+        for _k in range(30):
+            run.app.send(ep, side, r.choice([11, 12, 40]), 0, with_cb=False)
+    w.step(10)
+    return True
 
 
 def age_session(run, c, r):
@@ -203,6 +239,9 @@ def run_faults(cfg, out, props=None, tag="C05", profiles_pool=None, extra=None):
                 run.c.inc("sends_from_connect_callback", 2)
             P0 = run.C.Packet
             c.on_connected.append(on_connected)
+            # ... and it already sends while the handshake is still running (the library drops such a message; whatever it does
+            # with it, the message is never delivered more than once - also not in a later session of this client)
+            c.on_connecting.append(lambda cl: (run.app.send(cl, "client", r.choice([20, 300]), r.choice([0, -1]), with_cb=False), run.c.inc("sends_while_connecting")))
             if conf:
                 c.udp.setKeepAliveInterval(conf[0])
                 c.udp.setMessageTimeout(conf[1])
@@ -223,6 +262,9 @@ def run_faults(cfg, out, props=None, tag="C05", profiles_pool=None, extra=None):
                 w.handler.on.setdefault("message", []).append(raiser)
                 run.c.inc("worlds_with_raising_handler")
             c.updates_per_step = r.choice([1, 2, 2])
+            if r.random() < 0.5:
+                run.app.raising_callbacks = True      # every fifth send callback raises after recording its result
+                run.c.inc("worlds_with_raising_callbacks")
             # in a third of the worlds two more clients share the server (and the storm) with the main one
             others = []
             if r.random() < 0.33:
@@ -284,6 +326,27 @@ def run_faults(cfg, out, props=None, tag="C05", profiles_pool=None, extra=None):
                             run.c.inc("sends_from_send_callback")
                     rec = run.app.send(ep, side, 24, -1, with_cb=True, extra_cb=chain)
                 w.step(r.randint(5, 30))
+            # --- the callback of the FIRST message of a datagram raises: the messages packed behind it still get their results -
+            #     once over a clean link (ack path), once into an outage longer than the message timeout (timeout path: the
+            #     guaranteed ones behind it must still be re-sent)
+            if run.open(c):
+                for path in ("ack", "timeout"):
+                    for side in ("client", "server"):
+                        ep = c if side == "client" else run.sconn(c)
+                        if ep is None:
+                            continue
+                        def boom(value):
+                            run.c.inc("first_callback_of_datagram_raised")
+                            raise RuntimeError("seeded failure inside the first callback of a datagram")
+                        run.app.send(ep, side, 20, r.choice([0, 1]), with_cb=True, extra_cb=boom)
+                        for _k in range(3):
+                            run.app.send(ep, side, r.choice([11, 25, 60]), r.choice([0, -1, -1]), api=r.choice(["send", "send_guaranteed"]), with_cb=True)
+                    if path == "timeout":
+                        normal = dict(w.net.policy)
+                        w.net.set(c2s=L.Policy(outage=True), s2c=L.Policy(outage=True))
+                        w.step(int((max(c.udp.conn.outgoing_timeout, run.sconn(c).outgoing_timeout if run.sconn(c) else 1.0) + 0.3) / w.dt))
+                        w.net.set(c2s=normal["c2s"], s2c=normal["s2c"])
+                    w.step(r.randint(10, 30))
             # --- a BEST_EFFORT fragmented message over a slow link (round trip > resend interval, several copies of a
             #     fragment in flight) while the first copies of ONE fragment are lost: success may only be reported
             #     once the peer holds the whole message
@@ -394,6 +457,8 @@ def run_faults(cfg, out, props=None, tag="C05", profiles_pool=None, extra=None):
                 stop_extra()                 # the adversary rests while the network heals
             w.net.heal(0.004)
             healed = run.settle([c] + others, min_ticks=90)
+            if healed is not None and r.random() < 0.6 and change_mtu(run, c, r):
+                healed = run.settle([c] + others, min_ticks=60)
             if healed is not None and age_session(run, c, r):
                 healed = run.settle([c] + others, min_ticks=60)
             T.final_checks(run, [c] + others, healed)
@@ -482,7 +547,7 @@ def finish(tier, seed, results):
                          "worlds_keep_alive_longer_than_message_timeout", "sends_from_connect_callback", "sends_from_send_callback",
                          "worlds_with_counters_near_wrap", "shared_callback_batches", "aged_sessions_fragment_ids_reused",
                          "gap_scenarios_over_32_datagrams", "reordered_ack_path_streams", "handler_raised_in_message", "client_disconnects_with_retransmissions_in_flight",
-                         "second_session_messages_ok", "worlds_with_three_clients"], inconclusive)
+                         "second_session_messages_ok", "worlds_with_three_clients", "mtu_raised", "mtu_lowered", "callbacks_raised", "first_callback_of_datagram_raised", "sends_while_connecting"], inconclusive)
     cov = {
         "evaluations": m["evaluations"],
         "distinct_nontrivial": m["distinct_nontrivial"],
